@@ -430,14 +430,20 @@ class Env:
                 raise Abort("injection must select exactly one node", "C17",
                             [ref_text(st["ref"]), len(sel)])
             rnode = sel[0][1]
-            if rnode["type"] not in ("int", "float") or rnode["value"] is None or \
-                    isinstance(rnode["value"], (list, bool)):
+            val = rnode["value"]
+            if st.get("slice") and isinstance(val, list):
+                try:
+                    val = apply_slice(val, st["slice"])
+                except Exception:
+                    raise Unspecified("slice outside the referenced array")
+            if rnode["type"] not in ("int", "float") or val is None or \
+                    isinstance(val, (list, bool)):
                 raise Unspecified("unit defined from a node that is no plain number")
             unit = st.get("unit") or rnode["unit"]
-            if unit is None or not rnode["value"] > 0:
+            if unit is None or not val > 0:
                 raise Unspecified("unit defined from a number without unit / not positive")
             self.need_unit(unit)
-            self.units.define(st["name"], rnode["value"], unit)
+            self.units.define(st["name"], val, unit)
             return
         self.units.define(st["name"], st["value"], st.get("unit"))
 
@@ -917,7 +923,7 @@ def render(st):
         return ind + f"!format '{st['regex']}'"
     if k == "unit":
         if st.get("ref") is not None:
-            return ind + f"$unit {st['name']} = {ref_text(st['ref'])}{u}"
+            return ind + f"$unit {st['name']} = {ref_text(st['ref'])}{slice_text(st.get('slice'))}{u}"
         return ind + f"$unit {st['name']} = {lit_text(st['value'])}{u}"
     if k == "source":
         return ind + f"$source {st['name']} = {st['path']}"
